@@ -392,6 +392,12 @@ def domain(ctx):
             edits.append({"term": (o1, (o2, C(a), C(b)), V("x")), "ctx": {"x": c}, "edit": ["const", [0, 0], a + 1]})
             edits.append({"term": (o1, V("x"), (o2, (o1, C(a), C(b)), C(c))), "ctx": {"x": c}, "edit": ["const", [1, 0, 1], b + 5]})
             edits.append({"term": (o1, (o2, C(a), C(b)), V("x")), "ctx": {"x": c}, "edit": ["relink", [0], c]})
+            # the same without any variable, evaluated without an assignment (None / empty): nothing may be remembered across the edit
+            for cx in ({}, None):
+                edits.append({"term": (o1, (o2, C(a), C(b)), C(c)), "ctx": cx, "edit": ["const", [0, 1], b + 2]})
+                edits.append({"term": (o1, (o2, (o1, C(a), C(b)), C(c)), C(7)), "ctx": cx, "edit": ["const", [0, 0, 1], b + 5]})
+                edits.append({"term": (o1, C(3), (o2, (o1, C(a), C(b)), C(c))), "ctx": cx, "edit": ["relink", [1, 0], c + 1]})
+                edits.append({"term": (o1, (o2, C(a), C(b)), (o2, C(c), C(2))), "ctx": cx, "edit": ["relink", [0], c]})
     cases += edits
     rule = ("integer trees over %d operands incl. 2^31..10^20 as literals and bindings through + - * (all pairs, sampled triples in both groupings); powers base x exponent over %s; "
             "factorials of %s; neg/abs/sgn; division and decimals over %d small operands incl. zero divisors and NaN propagation (also behind a zero factor); "
